@@ -224,8 +224,13 @@ def main(p):
                     note(cell, hist, ops)
                     continue
                 polls = []
+                first = urllib.parse.urlsplit(seam.log[0]['url']) if seam.log else None
                 for e in seam.log[1:]:
                     u = urllib.parse.urlsplit(e['url'])
+                    if (u.scheme, u.netloc) != (first.scheme, first.netloc):
+                        # "on the same channel": for REST, the same scheme://host:port the transport talks to
+                        fail(cell, hist, 'poll-endpoint', f'poll went to {u.scheme}://{u.netloc}, the call itself to {first.scheme}://{first.netloc}')
+                        break
                     pre = a.get('poll_prefix', '/v1/')
                     polls.append((e['verb'] == 'GET' and u.path.startswith(pre) and ('/operations/' in u.path or u.path.startswith(pre + 'operations')),
                                   u.path[len(pre):] if u.path.startswith(pre) else u.path))
